@@ -514,13 +514,13 @@ theorem reader_without_bits_stored (c : CodecImpl) (conv : List Int → List Int
 /-- **The bits above Bits Stored are ignored on decoding** (`decode_frame`'s native route, pydicom's unused-bit correction): a
 native frame of 8 / 16 / 32-bit cells whose samples `xs` fit Bits Stored decodes to `xs` **whatever** the remaining high bits of
 every cell carry (`gs`: overlay planes of older objects, garbage) -- unsigned and two's complement alike, the sign being bit
-`stored - 1`.  Together with `accepted_samples_fit_stored` this is the mask on both sides: nothing outside the stored bits is
+`stored - 1`; 1 or 3 samples per pixel (anything else is refused).  Together with `accepted_samples_fit_stored` this is the mask on both sides: nothing outside the stored bits is
 written, nothing outside them is read.  `maskStored` / `decodeCells` are hand-written (pydicom's decoder): tie C, stream `glue` with
 `glue_high_bits = garbage` (every reader and the model's `readFrame` on the same dirty bytes, L0) and stream `values`. -/
 theorem decode_ignores_unused_high_bits (c : CodecImpl) (conv : List Int → List Int) (p : Params) (rows cols samples : Nat)
     (dt : DType) (xs : List Int) (gs : List Nat) (hts : p.ts ∈ nativeSyntaxes) (hba : p.bitsAllocated ≠ 1)
     (hdt : decodedDType p.bitsAllocated p.pixelRepresentation = .ok dt)
-    (hpr : p.pixelRepresentation = 0 ∨ p.pixelRepresentation = 1) (hpi : knownPI p.pi)
+    (hpr : p.pixelRepresentation = 0 ∨ p.pixelRepresentation = 1) (hpi : knownPI p.pi) (hs13 : samples = 1 ∨ samples = 3)
     (hpc : (samples : Int) > 1 → p.planar = some 0) (hbs : 1 ≤ p.bitsStored ∧ p.bitsStored ≤ p.bitsAllocated)
     (hshape : shapeInRange rows cols = true) (hlen : xs.length = rows * cols * samples)
     (hfit : ∀ v ∈ xs, if p.pixelRepresentation = 1 then
@@ -528,26 +528,46 @@ theorem decode_ignores_unused_high_bits (c : CodecImpl) (conv : List Int → Lis
       else 0 ≤ v ∧ v < (2 : Int) ^ p.bitsStored.toNat)
     (hnc : convertsColour p.pi samples = false) :
     decodeFrame c conv p rows cols samples (dirtyBytes dt.itemsize p.bitsStored.toNat xs gs) = .ok xs :=
-  decode_ignores_high_bits c conv p rows cols samples dt xs gs hts hba hdt hpr hpi hpc hbs hshape hlen hfit hnc
+  decode_ignores_high_bits c conv p rows cols samples dt xs gs hts hba hdt hpr hpi hs13 hpc hbs hshape hlen hfit hnc
+
+/-- **Samples per Pixel other than 1 and 3 are refused on decoding** outside the native single-bit branch (pydicom: "'Samples per
+Pixel' value of '2' is invalid, it must be 1 or 3"; audit 2): no bytes of a 2- or 4-sample frame are ever interpreted. -/
+theorem samples_other_than_1_3_refused (c : CodecImpl) (conv : List Int → List Int) (p : Params) (rows cols samples : Nat)
+    (bytes : List Nat) (index : Int) (hs : samples ≠ 1 ∧ samples ≠ 3) (h1 : ¬ (p.bitsAllocated = 1 ∧ isEncapsulated p.ts = false)) :
+    ∃ e, decodeFrame c conv p rows cols samples bytes index = .error e := by
+  unfold decodeFrame
+  cases hr : decodeFrameRoute (isEncapsulated p.ts) p.bitsAllocated samples p.pi p.pixelRepresentation p.planar with
+  | error e => exact ⟨e, rfl⟩
+  | ok r =>
+    have hr1 : r ≠ 1 := fun e => h1 ((decodeRoute_one_iff _ _ _ _ _ _).mp (e ▸ hr))
+    simp only [bind, Except.bind, hr1, ↓reduceIte]
+    by_cases h2 : r = 2
+    · simp only [h2, ↓reduceIte]
+      unfold pydicomNative
+      cases decodedDType p.bitsAllocated p.pixelRepresentation with
+      | error e => exact ⟨e, rfl⟩
+      | ok dt => exact ⟨.value, by simp only [bind, Except.bind, hs, ne_eq, not_false_eq_true, and_self, ↓reduceIte]⟩
+    · exact ⟨.value, by simp only [h2, ↓reduceIte, hs, ne_eq, not_false_eq_true, and_self]⟩
 
 /-- **Planar Configuration 1 is read back colour-by-pixel**: native cells that hold the planes of a colour frame one after the
 other (`planarOf`: `R1 R2 .. G1 G2 .. B1 B2 ..`) decode through `decode_frame(planar_configuration=1)` to the frame in the
 pixel-interleaved order (`interleave_planarOf`: pixel `k`, sample `c` is stored item `c * npix + k`) -- every shape, 8 / 16 /
-32-bit cells, signed or unsigned, any number of samples above 1.  (`encode_frame` itself never writes colour-by-plane natively:
+32 / 64-bit cells, signed or unsigned, **3 samples** (pydicom refuses every Samples per Pixel other than 1 and 3, and so does the
+decoder model: `samples_other_than_1_3_refused`).  (`encode_frame` itself never writes colour-by-plane natively:
 `native_accepted_iff_representable`.)  `interleavePlanes` is hand-written (pydicom's reshape): tie C, stream `glue` with `glue_planar = 1`
 (readers and the model's `readFrame` on the same colour-by-plane bytes, L0). -/
 theorem planar_frame_decodes_colour_by_pixel (c : CodecImpl) (conv : List Int → List Int) (p : Params) (rows cols samples : Nat)
     (dt : DType) (data : List Int) (hts : p.ts ∈ nativeSyntaxes) (hba : p.bitsAllocated ≠ 1)
     (hdt : decodedDType p.bitsAllocated p.pixelRepresentation = .ok dt)
     (hpr : p.pixelRepresentation = 0 ∨ p.pixelRepresentation = 1) (hpi : knownPI p.pi)
-    (hs : samples > 1) (hpc : p.planar = some 1) (hbs : 1 ≤ p.bitsStored ∧ p.bitsStored ≤ p.bitsAllocated)
+    (hs3 : samples = 3) (hpc : p.planar = some 1) (hbs : 1 ≤ p.bitsStored ∧ p.bitsStored ≤ p.bitsAllocated)
     (hshape : shapeInRange rows cols = true) (hlen : data.length = rows * cols * samples)
     (hfit : ∀ v ∈ data, if p.pixelRepresentation = 1 then
         -(2 : Int) ^ (p.bitsStored.toNat - 1) ≤ v ∧ v < (2 : Int) ^ (p.bitsStored.toNat - 1)
       else 0 ≤ v ∧ v < (2 : Int) ^ p.bitsStored.toNat)
     (hnc : convertsColour p.pi samples = false) :
     decodeFrame c conv p rows cols samples (encodeCells dt.itemsize (planarOf (rows * cols) samples data)) = .ok data :=
-  planar_frame_decodes_interleaved c conv p rows cols samples dt data hts hba hdt hpr hpi hs hpc hbs hshape hlen hfit hnc
+  planar_frame_decodes_interleaved c conv p rows cols samples dt data hts hba hdt hpr hpi hs3 hpc hbs hshape hlen hfit hnc
 
 /-! ## non-vacuity: concrete frames meeting the hypotheses -/
 
@@ -713,5 +733,7 @@ example : decodeFrame noCodec id ⟨"1.2.840.10008.1.2.1", 8, 8, "RGB", 0, some 
   decide
 example : decodeFrame noCodec id ⟨"1.2.840.10008.1.2.1", 8, 8, "RGB", 0, some 0⟩ 1 2 3 [1, 4, 2, 5, 3, 6] = .ok [1, 4, 2, 5, 3, 6] := by
   decide
+/-- two samples per pixel: refused (the audit's witness), as the real `decode_frame` does -/
+example : decodeFrame noCodec id ⟨"1.2.840.10008.1.2.1", 8, 8, "RGB", 0, some 1⟩ 1 2 2 [0, 1, 2, 3] = .error .value := by decide
 
 end HdVerif.C07
